@@ -47,6 +47,21 @@ def record(tw, rng, n, stats):
     builtin = gen.builtin_components()
     for j in range(n):
         c = rng.choice(builtin) if rng.random() < 0.4 else wide_component(rng, "W")
+        if c not in builtin and rng.random() < 0.25:
+            # the component's constants are REPLACED or EDITED after construction (the classes are ordinary mutable records):
+            # what is computed afterwards belongs to the constants the object holds now
+            d = wide_component(rng, "W2")
+            u = rng.random()
+            if u < 0.4:
+                c.vapour_pressure_constants = d.vapour_pressure_constants
+                c.heat_capacity_constants = d.heat_capacity_constants
+            elif u < 0.8 and d.vapour_pressure_constants.type == c.vapour_pressure_constants.type:
+                c.vapour_pressure_constants.a = d.vapour_pressure_constants.a
+                c.vapour_pressure_constants.b = d.vapour_pressure_constants.b
+                c.vapour_pressure_constants.c = d.vapour_pressure_constants.c
+                c.heat_capacity_constants.b = d.heat_capacity_constants.b
+            else:
+                c.molecular_weight = d.molecular_weight
         v = c.vapour_pressure_constants
         # --- vaporisation
         for _ in range(20):
